@@ -6,4 +6,4 @@ Extraction Language OCaml.
 
 Extraction "../ocaml/gen/dedup_model.ml" dedup_batches init_state hstep hrun flush_buffer query_state run_query
   known_class split_batch_by_key has_active_split old_rows new_rows written_rows
-  mkRow mkBatch mkIBatch mkWhere mkQuery mkChunk.
+  mkRow mkBatch mkIBatch mkWhere mkQuery mkChunk run_backfill add_hist.
